@@ -51,7 +51,7 @@ ALLOW = {
     "parser.sqlfluff.utils.extract_as_and_target_segment:.segments:index:0": ("a table_expression / from_expression_element child has at least one child segment", "fee-nonempty"),
     "parser.sqlfluff.utils.extract_as_and_target_segment:list_child_segments():index:0": ("a from_expression_element has at least one non-negligible child", "fee-nonempty"),
     "parser.sqlfluff.utils.extract_as_and_target_segment:list_child_segments():index:1": ("reached only when the first child is the LATERAL keyword, which the grammar always follows by the table expression", "fee-nonempty"),
-    "BaseExtractor._add_dataset_from_expression_element:all_segments:index:0": ("a from_expression_element has at least one non-keyword child (its table expression)", "fee-nonempty"),
+    "BaseExtractor._add_dataset_from_expression_element:[list]|list_child_segments():index:0": ("a from_expression_element has at least one non-keyword child (its table expression)", "fee-nonempty"),
     "MergeExtractor.extract:list_child_segments():index:i+1": ("the merge_statement grammar requires the join condition and match clauses after the USING source, so a bracketed source is never the last child", "merge-source-not-last"),
     "SqlParseLineageAnalyzer.analyze:token_first():optional-deref": ("statements reach analyze() only through split(), which keeps only pieces with a non-comment first token (rule R05.2)", None),
     "SqlParseLineageAnalyzer._extract_from_ddl_alter:token_first():optional-deref": ("same statement as in analyze(): it has a non-comment first token", None),
@@ -180,10 +180,25 @@ def rules(ctx: Ctx) -> None:
     analyze = an.methods["analyze"]
     stsql = an.methods.get("split_tsql")
     ctx.touched(analyze)
+    # the segment handed to the extractors: X in `can_extract(X.type)`; follow X = V[0], V = <sources>
     srcs = set()
-    for k in prog.walk_fn(analyze):
-        if isinstance(k, ast.Assign) and any(isinstance(t, ast.Name) and t.id == "statement_segments" for t in k.targets):
-            srcs.add(u(k.value))
+    disp_calls = [k for k in prog.walk_fn(analyze) if isinstance(k, ast.Call) and isinstance(k.func, ast.Attribute) and k.func.attr == "can_extract" and k.args]
+    seg_names = {a.value.id for k in disp_calls for a in [k.args[0]] if isinstance(a, ast.Attribute) and isinstance(a.value, ast.Name)}
+    todo, seen_n = list(seg_names), set()
+    while todo:
+        nm = todo.pop()
+        if nm in seen_n:
+            continue
+        seen_n.add(nm)
+        for kind, node in prog.local_defs(analyze, nm):
+            v = getattr(node, "value", None)
+            if v is None:
+                continue
+            inner = [x.id for x in ast.walk(v) if isinstance(x, ast.Name) and prog.local_defs(analyze, x.id) and x.id != nm]
+            if isinstance(v, ast.Subscript) and isinstance(v.value, ast.Name) or (inner and not any(isinstance(x, ast.Call) for x in ast.walk(v))):
+                todo.extend(inner)
+            else:
+                srcs.add(u(v))
     ok_src = all(lister.name in s or "tsql_split_cache" in s for s in srcs) and bool(srcs)
     cache_writers = [m.name for m in an.methods.values() for k in prog.walk_fn(m) if isinstance(k, ast.Subscript) and isinstance(k.ctx, ast.Store) and "tsql_split_cache" in u(k.value)]
     ok_cache = set(cache_writers) <= {"split_tsql"} and (stsql is None or any(lister.name in u(k) for k in prog.walk_fn(stsql) if isinstance(k, ast.Call)))
